@@ -245,6 +245,10 @@ for i in (I(8, 1), I(16, 1), I(32, 1), I(64, 1)):
           funcs='digit product kernel through N=1 widening_mul / carrying_mul / overflowing_mul', bound='all digit triples; double-width primitive product as oracle'))
 
 
+for d in ('u8', 'u16', 'u32', 'u64'):
+    add(H('C02', f"c02_kernel_hook_{d}", 'c02_kernel_hook', f"3, {d}, {d}, {DD[d]}", inst=f'digit {d}', cap=900,
+          funcs=f'digit::{d}::carrying_mul / widening_mul (private kernels, via the verif_hooks feature)', bound='all four digit arguments'))
+
 # ---------------------------------------------------------------- C03
 def _x(i, signed):
     t = 'i' if signed else 'u'
@@ -287,6 +291,106 @@ for tier, insts in (('quick', [I(8, 2), I(64, 2), I(16, 3)]), ('thorough', [I(8,
               funcs='checked_div/rem/div_euclid/rem_euclid/next_multiple_of with a zero divisor', bound='all dividends'))
 
 
+# ---------------------------------------------------------------- C04
+C04_LQ = [I(8, 1), I(8, 3), I(16, 2), I(64, 1), I(64, 2), I(64, 3)]
+C04_LT = [i for i in LIN_Q + LIN_T if i not in C04_LQ]
+for tier, insts in (('quick', C04_LQ), ('thorough', C04_LT)):
+    for i in insts:
+        for md, mode in (('ok', 'dbg'), ('panic', 'dbg'), ('rel', 'rel')):
+            add(H('C04', f"c04_lin_ops_{md}_{i.tag}", 'c04_lin_ops', f"{i.n + 2}, {i.std().rsplit(',', 1)[0]}, {md}", tier=tier, mode=mode, inst=i.label,
+                  kind='panic' if md == 'panic' else 'normal',
+                  funcs='operators + - (BUint, BInt), unary -, abs, next_power_of_two: ' + {'ok': 'no panic and exact value when representable', 'panic': 'panic on every unrepresentable result (debug assertions on)', 'rel': 'wrapped result, no panic (debug assertions off)'}[md],
+                  bound='all operands; predicate = overflow flag of the overflowing_* twin'))
+C04_SQ = [I(8, 1), I(8, 3), I(64, 1), I(64, 2)]
+C04_ST = [I(8, 2), I(16, 2), I(16, 3), I(32, 1), I(32, 3), I(64, 3)]
+for tier, insts in (('quick', C04_SQ), ('thorough', C04_ST)):
+    for i in insts:
+        for sg, T in (('u', i.U), ('i', i.I)):
+            for dr, op, chk, wr in (('shl', '<<', 'checked_shl', 'wrapping_shl'), ('shr', '>>', 'checked_shr', 'wrapping_shr')):
+                for md, mode in (('ok', 'dbg'), ('panic', 'dbg'), ('rel', 'rel')):
+                    add(H('C04', f"c04_{dr}_{sg}_{md}_{i.tag}", 'c04_shift', f"{i.n + 2}, {T}, {i.digit}, {i.n}, {op}, {chk}, {wr}, {md}", tier=tier, mode=mode,
+                          inst=i.label, kind='panic' if md == 'panic' else 'normal', cap=900,
+                          funcs=f"{'BUint' if sg == 'u' else 'BInt'} {op} with u8/u16/u32/u64/u128/usize/i8/i16/i32/i64/i128/isize amounts ({md})",
+                          bound='all values; amount drawn as i128 and truncated to each of the 12 amount types'))
+for i, tier, cap in ((I(8, 1), 'quick', 900), (I(8, 2), 'thorough', 3600)):
+    for md, mode in (('ok', 'dbg'), ('panic', 'dbg'), ('rel', 'rel')):
+        add(H('C04', f"c04_mul_ops_{md}_{i.tag}", 'c04_mul_ops', f"{i.n + 3}, {i.std().rsplit(',', 1)[0]}, {md}", tier=tier, mode=mode, inst=i.label, cap=cap,
+              kind='panic' if md == 'panic' else 'normal', core=False,
+              funcs=f'operator *, pow, next_multiple_of (BUint, BInt) ({md})', bound='all operands, exponent over all of u32'))
+for i, tier in ((I(8, 1), 'quick'), (I(8, 2), 'quick'), (I(16, 2), 'thorough'), (I(64, 2), 'thorough')):
+    for mode in ('dbg', 'rel'):
+        add(H('C04', f"c04_div_log_panic_{i.tag}", 'c04_div_log_panic', f"{i.n + 3}, {i.std().rsplit(',', 1)[0]}", tier=tier, mode=mode, inst=i.label, kind='panic', cap=1800,
+              core=(i.bits <= 16),
+              funcs='zero divisor through / % and every non-checked division method; MIN / -1, MIN % -1; ilog2/ilog10/ilog of non-positive values or base < 2',
+              bound='all operands satisfying the must-panic predicate'))
+for i, what, tier in ((I(8, 1), 'full', 'quick'), (I(8, 3), 'lin', 'quick'), (I(64, 2), 'lin', 'quick'), (I(8, 2), 'full', 'thorough'),
+                      (I(16, 3), 'lin', 'thorough'), (I(32, 2), 'lin', 'thorough'), (I(64, 3), 'lin', 'thorough'), (I(64, 5), 'lin', 'thorough')):
+    for mode in ('dbg', 'rel'):
+        add(H('C04', f"c04_nopanic_{what}_{i.tag}", 'c04_nopanic', f"{i.n + 3}, {i.std().rsplit(',', 1)[0]}, {what}", tier=tier, mode=mode, inst=i.label, cap=1800,
+              core=(what == 'lin'),
+              funcs='checked_* never panic; wrapping_/overflowing_/saturating_ (non-dividing) never panic' + (' (incl. mul, div, rem, pow, ilog)' if what == 'full' else ' (linear-cost methods)'),
+              bound='completely unconstrained arguments: shift amounts / exponents over all of u32, zero divisors, MIN / -1'))
+for i in (I(8, 1), I(8, 3), I(64, 2)):
+    add(H('C04', f"c04_strict_ok_{i.tag}", 'c01_strict_ok', f"{i.bytes + 4}, {i.std()}", mode='rel', inst=i.label, funcs='strict_add/sub/neg/abs/... value (release mode)', bound='all operands'))
+    add(H('C04', f"c04_strict_panic_{i.tag}", 'c01_strict_panic', f"{i.bytes + 4}, {i.std()}", mode='rel', kind='panic', inst=i.label,
+          funcs='strict_add/sub/neg/abs/... panic on overflow also without debug assertions', bound='all overflowing operands'))
+    add(H('C04', f"c04_strict_shift_panic_{i.tag}", 'c05_strict_panic', f"{i.n + 2}, {i.std()}", mode='rel', kind='panic', inst=i.label,
+          funcs='strict_shl/strict_shr panic for amount >= BITS also without debug assertions', bound='all amounts >= BITS'))
+add(H('C04', "c04_strict_mul_panic_d8x1", 'c02_strict_panic', f"3, {I(8, 1).U}, {I(8, 1).I}, u8, 1", mode='rel', kind='panic', inst=I(8, 1).label,
+      funcs='strict_mul panics on overflow also without debug assertions', bound='all overflowing pairs'))
+
+
+# ---------------------------------------------------------------- C08
+for i, tier, cap, eb in ((I(8, 1), 'quick', 900, 32), (I(8, 2), 'thorough', 7200, 32), (I(16, 1), 'thorough', 7200, 32)):
+    add(H('C08', f"c08_pow_u_{i.tag}", 'c08_pow_u', f"{eb + 2}, {i.U}, {i.digit}, {i.n}, {eb}", tier=tier, cap=cap, inst=i.label, core=(i.bits == 8),
+          funcs='BUint overflowing/checked/wrapping/saturating/strict_pow', bound=f'all bases, exponent over all of u32 (unwind {eb + 2})'))
+    add(H('C08', f"c08_pow_i_{i.tag}", 'c08_pow_i', f"{eb + 2}, {i.I}, {i.digit}, {i.n}, {eb}", tier=tier, cap=cap, inst=i.label, core=(i.bits == 8),
+          funcs='BInt overflowing/checked/wrapping/saturating/strict_pow', bound=f'all bases, exponent over all of u32 (unwind {eb + 2})'))
+    add(H('C08', f"c08_strict_pow_panic_{i.tag}", 'c08_strict_pow_panic', f"{eb + 2}, {i.U}, {i.I}, {i.digit}, {i.n}", tier=tier, cap=cap, inst=i.label, kind='panic',
+          core=(i.bits == 8), funcs='strict_pow panics on overflow (BUint, BInt)', bound='all overflowing (base, exponent) pairs'))
+    for sg, T in (('u', i.U), ('i', i.I)):
+        add(H('C08', f"c08_ilog_{sg}_{i.tag}", 'c08_ilog', f"{i.bits + 2}, {T}, {i.digit}, {i.n}", tier=tier, cap=cap, inst=i.label, core=(i.bits == 8),
+              funcs=f"{'BUint' if sg == 'u' else 'BInt'} checked_ilog/ilog, checked_ilog2/ilog2, checked_ilog10/ilog10", bound='all (self, base) pairs'))
+both('C08', 'c08_ilog2_lin', LIN_Q, LIN_T, group='checked_ilog2 / ilog2 (highest set bit)', bound='all values, symbolic bit index')
+
+
+# ---------------------------------------------------------------- C17
+C17_Q = [I(8, 2), I(64, 2)]
+C17_T = [I(16, 2), I(32, 2), I(8, 3), I(64, 3)]
+for tier, insts in (('quick', C17_Q), ('thorough', C17_T)):
+    for i in insts:
+        for sg, T in (('u', i.U), ('i', i.I)):
+            nm = 'BUint' if sg == 'u' else 'BInt'
+            for md in ('ok', 'panic'):
+                add(H('C17', f"c17_lin_{md}_{sg}_{i.tag}", 'c17_binops', f"{i.n + 2}, {T}, {i.digit}, {i.n}, lin, 5, {md}", tier=tier, inst=i.label,
+                      kind='panic' if md == 'panic' else 'normal',
+                      funcs=f"{nm} Add/Sub/BitAnd/BitOr/BitXor: v op v, &v op v, v op &v, &v op &v, op=, op= &, const twin ({md})", bound='all operand pairs, all 7 forms'))
+            add(H('C17', f"c17_shift_forms_{sg}_{i.tag}", 'c17_shift_forms', f"{i.n + 2}, {T}, {i.digit}, {i.n}", tier=tier, inst=i.label, cap=900,
+                  funcs=f"{nm} Shl/Shr reference and assign forms for the 12 primitive amount types", bound='all values, all in-range amounts'))
+            for m in (1, 2):
+                AU, AI = Inst(i.digit, m).U, Inst(i.digit, m).I
+                add(H('C17', f"c17_shift_bnum_{sg}_{i.tag}_m{m}", 'c17_shift_bnum', f"{i.n + 3}, {T}, {i.digit}, {i.n}, {AU}, {AI}, {i.digit}, {m}", tier=tier, inst=i.label, cap=900,
+                      funcs=f"{nm} Shl/Shr with BUint<{m}> / BInt<{m}> amounts below BITS (value, reference, assign forms)", bound='all values, all amounts below BITS'))
+            add(H('C17', f"c17_fold_{sg}_{i.tag}", 'c17_fold', f"{i.n + 3}, {T}, {i.digit}, {i.n}, false", tier=tier, inst=i.label,
+                  funcs=f"{nm} Sum over slices of length 0..=3 (by reference and by value)", bound='all element values, length 0..=3'))
+        add(H('C17', f"c17_unary_{i.tag}", 'c17_unary', f"{i.n + 2}, {i.U}, {i.I}, {i.digit}, {i.n}", tier=tier, inst=i.label, funcs='Not, Neg (value and reference), Default', bound='all values'))
+        add(H('C17', f"c17_digit_add_{i.tag}", 'c17_digit_ops', f"{i.n + 2}, {i.U}, {i.digit}, {i.n}, any, false", tier=tier, inst=i.label,
+              funcs='BUint + digit', bound='all values and digits with a representable sum'))
+for i, tier, cap in ((I(8, 1), 'quick', 900), (I(8, 2), 'thorough', 3600)):
+    for sg, T in (('u', i.U), ('i', i.I)):
+        for md in ('ok', 'panic'):
+            add(H('C17', f"c17_mul_{md}_{sg}_{i.tag}", 'c17_binops', f"{i.n + 3}, {T}, {i.digit}, {i.n}, mul, 3, {md}", tier=tier, inst=i.label, cap=cap, core=False,
+                  kind='panic' if md == 'panic' else 'normal',
+                  funcs=f"{'BUint' if sg == 'u' else 'BInt'} Mul/Div/Rem: all 7 forms ({md})", bound='all operand pairs'))
+        add(H('C17', f"c17_fold_prod_{sg}_{i.tag}", 'c17_fold', f"{i.n + 3}, {T}, {i.digit}, {i.n}, true", tier=tier, inst=i.label, cap=cap, core=False,
+              funcs='Sum and Product over slices of length 0..=3', bound='all element values, length 0..=3'))
+    add(H('C17', f"c17_digit_div_{i.tag}", 'c17_digit_ops', f"{i.n + 3}, {i.U}, {i.digit}, {i.n}, any, true", tier=tier, inst=i.label, cap=cap, core=False,
+          funcs='BUint + digit, BUint / digit, BUint % digit', bound='all values and digits'))
+for i, tier in ((I(8, 3), 'quick'), (I(16, 2), 'thorough'), (I(32, 2), 'thorough')):
+    add(H('C17', f"c17_digit_div_alpha_{i.tag}", 'c17_digit_ops', f"{i.n + 3}, {i.U}, {i.digit}, {i.n}, any_alpha, true", tier=tier, inst=i.label, cap=1800, core=False,
+          funcs='BUint / digit, BUint % digit', bound='value digits over the boundary alphabet, all digit divisors'))
+
+
 def by_prop(p):
     return [h for h in REG if h.prop == p]
 
@@ -304,7 +408,7 @@ ASSUME = {
     'C01': ['from_digits/from_bits/digits()/to_bits are the identity on the digit array (decided under C13)'],
 }
 
-HOOK_COMMITS = []
+HOOK_COMMITS = ['42da9b2']
 
 # per-property claim texts for MANIFEST.json
 def _claim(what, outside, oracle):
